@@ -68,8 +68,18 @@ def run(chk):
                  {"cfg": cfg("BIZONEDRECTANGLE", "COAXIAL", months=12), "other": cfg("BIRECTANGLE", months=12), "order_seed": 11}]
     else:
         hist.append({"cfg": cfg("RECTANGLE", "DOUBLEUTUBEPARALLEL", months=12, flow=("SYSTEM", 2.0)), "other": cfg(months=12), "order_seed": 3})
+    # one more process whose FIRST design differs from the configuration only in grout / pipe conductivity
+    hist.append({"cfg": cfg(months=12, loads={"kind": "cooling", "scale": 28000.0, "seed": 9}), "order_seed": 1, "similar_first": True})
     with ThreadPoolExecutor(max_workers=NPROC) as ex:
         hr = list(ex.map(lambda h: run_impl("e2e.py", {"mode": "history", "cases": [h]}, timeout=1800), hist))
+    for h, rr in zip(hist, hr):
+        if h.get("similar_first") and not (isinstance(rr, dict) and "_error" in rr) and rr[0].get("ok"):
+            own = e2e_runs([h["cfg"]])[0]          # the same configuration in a process of its own
+            chk.cov["evaluations"] += 1
+            if own.get("ok") and (own["nbh"] != rr[0]["base"]["nbh"] or own["H"] != rr[0]["base"]["H"]):
+                chk.violation("manager-history", {"cfg": h["cfg"], "variant": "after_similar_design_in_a_fresh_process"},
+                              {"after_a_design_with_other_grout": rr[0]["base"], "in_a_process_of_its_own": {"nbh": own["nbh"], "H": own["H"]}},
+                              "the design does not depend on what was designed earlier in the same process")
     for h, rr in zip(hist, hr):
         if isinstance(rr, dict) and "_error" in rr:
             chk.broken.append({"name": "manager histories failed in the harness", "detail": rr["_error"][-300:]})
